@@ -582,7 +582,7 @@ def strip(result, readback=True):
     implementation), identifies the markers of unreadable values, and with readback=False also drops the
     BEFORE{...} AFTER{...} structural read-back (kept: status, mapping, block table, heads, raw cells, symbol table)."""
     line = re.sub(r' iso=[01]', '', result)
-    line = re.sub(r' wf=[01]', '', line)
+    line = re.sub(r' a?wf=[01]', '', line)
     line = re.sub(r' E<[^>]*>', '', line)
     line = re.sub(r' U<[01]>', '', line)
     line = MARKER_RE.sub('<?>', line)
@@ -727,6 +727,33 @@ def wf_stats(cases, impl, model):
     return total, good, bad
 
 
+def access_wf_stats(cases, impl, model):
+    """model flag ` awf=<0|1>` (every opt / clone record: the store after the call; `end`: the final store): `Heap.WF` of
+    the accessor model (Spec/AccessWF.lean) decided on the heap view `toAccessHeap` of the model store.
+    Props/C07Reach.lean proves it for every reachable store; here it is observed on the stores of the generated op
+    sequences, which the suite compares with the real heap cell by cell (raw cells, block table, heads).
+    Returns (cases judged, flags seen, flags = 1, bad) where bad = [(id, script, why)] for the scripts that use the
+    store as a host may (streams WELLFORMED): a flag 0, or a model store that is not the implementation's heap."""
+    judged, flags, good, bad = 0, 0, 0, []
+    for c in cases:
+        if len(c) > 2 and c[2] == 'run':
+            continue
+        if stream_of(c[1]) not in WELLFORMED:
+            continue
+        a, b = impl.get(c[1], 'MISSING'), model.get(c[1], 'MISSING')
+        fl = re.findall(r' awf=([01])', b)
+        if not fl:
+            continue          # the script stopped on an error before any record
+        judged += 1
+        flags += len(fl)
+        good += fl.count('1')
+        if '0' in fl:
+            bad.append((c[1], c[2], 'awf=0'))
+        elif strip(a, False) != strip(b, False):
+            bad.append((c[1], c[2], 'model store differs from the real heap'))
+    return judged, flags, good, bad
+
+
 def run_base_cases():
     from vlib import esc
     return [['OPT', 'run%d.base' % i, 'run', esc(src), inp, 'base'] for i, (src, inp) in enumerate(PROGRAMS)]
@@ -761,6 +788,10 @@ def main():
         print('seed %d: %d opt/clone records, %d satisfy the hypotheses of the universal theorems (wf=1), %d of those rejected by the oracle' % (seed, wt, wg, len(wb)))
         for x in wb[:5]:
             print('WF-ORACLE', x)
+        aj, af, ag, ab = access_wf_stats(cases, impl, model)
+        print('seed %d: accessor well-formedness (Heap.WF of the heap view, C07Reach): %d scripts judged, %d flags, %d true, %d bad' % (seed, aj, af, ag, len(ab)))
+        for x in ab[:5]:
+            print('ACCESS-WF', x)
         total += len(cases)
         all_dis += dis; all_orc += orc; all_iso += iso
         print('seed %d: %d cases, %d model disagreements, %d oracle failures, %d iso/oracle mismatches' % (seed, len(cases), len(dis), len(orc), len(iso)))
@@ -801,6 +832,7 @@ def main():
             lid = '%s.snap%d' % (cid.replace('run', 'snap'), j)
             loads.append(['OPT', lid, 'load %s; opt' % m.group(1)])
             expect[lid] = m.group(2)
+            loads.append(['OPT', lid + 'w', 'load %s' % m.group(1)])      # Heap.WF of the real heap of a running program
     nret = sum(1 for c in rc if c[5].startswith('ret'))
     print('RUN: %d programs, %d cases with build-time retention only, %d oracle failures' % (len(steps), len(rc) - nret, sum(len(v) for k, v in bad.items() if k[0] == 'build')))
     print('RUN-RET: %d cases with a second retain_all_current_data at a step boundary, %d oracle failures' % (nret, sum(len(v) for k, v in bad.items() if k[0] == 'ret')))
@@ -809,8 +841,15 @@ def main():
     if loads:
         model = vlib.run_model(loads, 'optsnap')
         sd = 0
+        aw = [0, 0]
         for c in loads:
             got = model.get(c[1], 'MISSING')
+            for fl in re.findall(r' awf=([01])', got):
+                aw[int(fl)] += 1
+                if fl == '0':
+                    print('SNAP-ACCESS-WF0', c[1], c[2][:300])
+            if c[1].endswith('w'):
+                continue
             m = re.search(r':opt ok M=\[\] (B=.*?) BEFORE\{', got)
             if not m or m.group(1) != expect[c[1]]:
                 sd += 1
@@ -819,7 +858,7 @@ def main():
             iso = re.search(r' iso=([01])', got)
             if iso and iso.group(1) != '1':
                 print('SNAP-ISO0', c[1])
-        print('SNAP: %d program states replayed on the model, %d disagreements' % (len(loads), sd))
+        print('SNAP: %d program states replayed on the model, %d disagreements; Heap.WF of the loaded real heaps and of their compactions: %d true, %d false' % (len(loads) // 2, sd, aw[1], aw[0]))
 
 
 if __name__ == '__main__':
